@@ -1855,6 +1855,54 @@ class Interp:
             cache = self._locals_cache
         return cache[1]
 
+    def _module_level_value(self, mod, name, need_body=False):
+        """(value,) of a module-level name built by several statements or by an expression that constant folding does not follow
+        (TABLE = [''] * 16 ; TABLE[11] = letters() / a comprehension): those statements interpreted in order.  None when this does
+        not apply (`need_body`: only when the module changes the name after binding it)."""
+        cache = self.model.__dict__.setdefault('_module_values', {})
+        key = (mod.name, name)
+        if key not in cache:
+            stmts = []
+            mutated = False
+            for st in mod.tree.body:
+                tgts = st.targets if isinstance(st, ast.Assign) else [st.target] if isinstance(st, (ast.AugAssign, ast.AnnAssign)) else []
+                roots = set()
+                for t in tgts:
+                    x = t
+                    while isinstance(x, (ast.Subscript, ast.Attribute)):
+                        x = x.value
+                    if isinstance(x, ast.Name):
+                        roots.add((x.id, x is not t or isinstance(st, ast.AugAssign)))
+                if isinstance(st, ast.Expr) and isinstance(st.value, ast.Call) and isinstance(st.value.func, ast.Attribute) \
+                   and isinstance(st.value.func.value, ast.Name) and st.value.func.value.id == name:
+                    roots.add((name, True))
+                for nm, mut in roots:
+                    if nm == name:
+                        stmts.append(st)
+                        mutated = mutated or mut
+            cache[key] = None
+            if stmts and (mutated or not need_body):
+                saved = (self.scope, getattr(self, '_locals_cache', None), self.h)
+                try:
+                    self.scope, self.h, self._locals_cache = mod, Hooks(), None
+                    self.h.keep = lambda ev: False
+                    cache[key] = (None, mutated)              # (guards the recursion)
+                    outs = self.block(stmts, [State({})])
+                    falls = outs.get('fall', [])
+                    if len(falls) == 1 and name in falls[0][0].env and falls[0][0].env[name] is not TOP:
+                        cache[key] = ((falls[0][0].env[name],), mutated)
+                    else:
+                        cache[key] = None
+                except AnalysisError:
+                    cache[key] = None
+                finally:
+                    self.scope, self._locals_cache, self.h = saved
+        hit = cache[key]
+        if hit is None or hit[0] is None or (need_body and not hit[1]):
+            return None
+        v = hit[0][0]
+        return (copy.deepcopy(v) if isinstance(v, (list, dict, set)) else v,)
+
     def _from_model(self, r):
         if r is None:
             return TOP
@@ -1867,6 +1915,12 @@ class Interp:
                 if v is not TOP:
                     return v
             v = self.model.eval_const(r[1], rhs)
+            if isinstance(r[1], M.ModuleInfo) and (M.is_unknown(v) or isinstance(v, (list, dict, set))):
+                name = next((nm for nm, ex in r[1].assigns.items() if ex is r[2]), None)
+                if name is not None:
+                    mv = self._module_level_value(r[1], name, need_body=not M.is_unknown(v))
+                    if mv is not None:
+                        return mv[0]
             if M.is_unknown(v) and self.heap:
                 # tables of functions / classes, partial objects, namedtuple classes ... defined at module or class level
                 cache = self.model.__dict__.setdefault('_toplevel_values', {})
@@ -1972,6 +2026,26 @@ class Interp:
             if isinstance(k, M.ClassInfo) and (attr in k.assigns or attr in k.methods):
                 break
         owner = self.model.find_attr_class(cls, attr)
+        if owner is not None and attr in owner.assigns and attr in self.model.body_mutated(owner):
+            # built step by step in the class body: that body, interpreted
+            cache = self.model.__dict__.setdefault('_class_body_values', {})
+            if owner.fullname not in cache:
+                cache[owner.fullname] = {}
+                saved = (self.scope, getattr(self, '_locals_cache', None), self.h, self.heap)
+                try:
+                    self.scope, self.h, self._locals_cache = owner, Hooks(), None
+                    stmts = [x for x in owner.node.body if not isinstance(x, (ast.FunctionDef, ast.AsyncFunctionDef, ast.ClassDef))
+                             and not (isinstance(x, ast.Expr) and isinstance(x.value, ast.Constant))]
+                    outs = self.block(stmts, [State({})])
+                    falls = outs.get('fall', [])
+                    if len(falls) == 1:
+                        cache[owner.fullname] = dict(falls[0][0].env)
+                except AnalysisError:
+                    pass
+                finally:
+                    self.scope, self._locals_cache, self.h, self.heap = saved
+            v = cache[owner.fullname].get(attr, TOP)
+            return copy.deepcopy(v) if isinstance(v, (list, dict)) and not any(isinstance(x, (Obj, TextObj)) for x in (v.values() if isinstance(v, dict) else v)) else v
         if owner is not None and attr in owner.assigns:
             rhs = owner.assigns[attr][-1]
             v = self._from_model(('assign', owner, [rhs]))
@@ -2511,6 +2585,34 @@ class Interp:
             r = self.apply_value(fval, list(args), kwargs, s, n.lineno)
             if r is not None:
                 return r
+        if isinstance(fval, Obj) and isinstance(fval.cls, M.ClassInfo) and self.model is not None and self.inline_depth > 0 \
+           and self.model.find_method(fval.cls, '__call__') is not None:
+            # an instance of a class with __call__, called: that method on the object
+            names = self._with_temps({'__obj': fval}, s)
+            vals = {'__x%d' % i: a for i, a in enumerate(args)}
+            vals.update({'__k_' + k: v for k, v in kwargs.items()})
+            names.update(self._with_temps(vals, s))
+            call = ast.Call(func=ast.Attribute(value=ast.Name(id=names['__obj'], ctx=ast.Load()), attr='__call__', ctx=ast.Load()),
+                            args=[ast.Name(id=names['__x%d' % i], ctx=ast.Load()) for i in range(len(args))],
+                            keywords=[ast.keyword(arg=k, value=ast.Name(id=names['__k_' + k], ctx=ast.Load())) for k in kwargs])
+            for x in ast.walk(call):
+                x.lineno, x.col_offset, x.end_lineno, x.end_col_offset = n.lineno, 0, n.lineno, 0
+            try:
+                res = self._inline_single(call, s)
+            finally:
+                for nm_ in names.values():
+                    s.env.pop(nm_, None)
+            if res is not None:
+                return res
+            self.imprecise.append('the call of the object %s could not be interpreted (line %s)' % (fval.label, n.lineno))
+            return (TOP,)
+        if isinstance(fval, Sym) and fval.label.startswith('extfunc:'):
+            # a scripted function of the scenario (source.read, tex.readArgument) reached through a value: answered by the hooks under its own name
+            r = self.h.call(self, n, fval.label[8:], list(args), dict(kwargs), s)
+            if r is not None:
+                return (None if r is NONE else r,)
+            self.imprecise.append('the scripted function %s gave no answer (line %s)' % (fval.label[8:], n.lineno))
+            return (TOP,)
         if isinstance(fval, type) and issubclass(fval, tuple) and hasattr(fval, '_fields'):
             try:
                 return (fval(*args, **kwargs),)          # an instance of a namedtuple class made by the analysed code
@@ -2558,6 +2660,12 @@ class Interp:
         """Call a callable *value* with evaluated arguments.  Returns (result,) or None when the call cannot be decided."""
         if isinstance(fval, Sym) and fval.label.startswith('method:') and fval.label[7:].isidentifier() and self.inline_depth > 0:
             return self._call_self_method(fval.label[7:], list(args), dict(kwargs), s, lineno)
+        if isinstance(fval, Sym) and fval.label.startswith('extfunc:'):
+            node = ast.Call(func=ast.Name(id='__extfunc', ctx=ast.Load()), args=[], keywords=[])
+            for x in ast.walk(node):
+                x.lineno, x.col_offset, x.end_lineno, x.end_col_offset = lineno, 0, lineno, 0
+            r = self.h.call(self, node, fval.label[8:], list(args), dict(kwargs), s)
+            return None if r is None else (None if r is NONE else r,)
         if isinstance(fval, M.External):
             import builtins as _b
             if '.' not in fval.name and callable(getattr(_b, fval.name, None)) and not isinstance(getattr(_b, fval.name), type):
@@ -3634,10 +3742,11 @@ class Interp:
                 g = LazyGen(n, args[0], {}, self.scope, 'enumerate')
                 g.state = kwargs.get('start', 0)
                 return g
-            elif isinstance(fval_probe := (s.env.get(n.func.id) if isinstance(n.func, ast.Name) else None), (Sym, M.FunctionInfo)) \
-                    or self._callee_probe(n, s) or (isinstance(n.func, ast.Name) and n.func.id in ('takewhile', 'dropwhile', 'filter', 'filterfalse', 'map', 'isinstance', 'id', 'type')) \
-                    or fname.split('.')[-1] in ('takewhile', 'dropwhile', 'filterfalse'):
-                pass                # handed on as an object (a helper of the analysed code, or a lazy wrapper)
+            elif not ((isinstance(n.func, ast.Name) and n.func.id in _PURE and n.func.id not in s.env)
+                      or (isinstance(n.func, ast.Attribute) and n.func.attr in ('join', 'extend', 'update', 'fromkeys', 'from_iterable', 'union', 'intersection', 'difference')
+                          and not self._callee_probe(n, s))
+                      or fname.split('.')[-1] in ('chain', 'zip_longest', 'product', 'islice', 'starmap', 'groupby', 'deque', 'reduce', 'sorted', 'max', 'min')):
+                pass                # handed on as an object (a helper of the analysed code, a lazy wrapper, a table of handlers)
             else:
                 # any other consumer takes everything
                 conv = []
@@ -3674,6 +3783,12 @@ class Interp:
         if fname == 'isinstance' and 'isinstance' not in s.env and len(args) == 2 and isinstance(args[1], M.External) \
            and args[1].name.split('.')[-1] in _ABCS and _plain(args[0]) and not isinstance(args[0], (TextObj, TokStr, M._StringLetters)):
             return isinstance(args[0], _ABCS[args[1].name.split('.')[-1]])
+        if fname == 'isinstance' and 'isinstance' not in s.env and len(args) == 2:
+            ks0 = list(args[1]) if isinstance(args[1], tuple) else [args[1]]
+            ks0 = [_BUILTIN_TYPES.get(k.name, k) if isinstance(k, M.External) else k for k in ks0]
+            if ks0 and all(isinstance(k, type) and k in (str, int, float, bool, list, tuple, dict, set, bytes, type(None), frozenset) for k in ks0) \
+               and _plain(args[0]) and not isinstance(args[0], (TextObj, TokStr, M._StringLetters, ListObj)):
+                return isinstance(args[0], tuple(ks0))         # builtin types held in a table of the analysed code
         if fname == 'isinstance' and 'isinstance' not in s.env and len(args) == 2 and self.model is not None:
             ks = list(args[1]) if isinstance(args[1], tuple) else [args[1]]
             if ks and all(isinstance(k, (M.ClassInfo, type)) for k in ks) and any(isinstance(k, M.ClassInfo) for k in ks):
